@@ -296,7 +296,7 @@ for n, w, t in (("c16_protocol_seq", "sequential: 20 pre-loaded retirements, two
 
 # ---- sequential histories
 S = "scen_seq"
-SEQRULES = queue_rules(retry=3, streams=3, ring=3, extra=[(r'ReadCursor::add_stream', 3), (r'ReadCursor::remove_reader', 3), (r'Vec.*clone|to_vec|retain|extend|spec_', 5)])
+SEQRULES = queue_rules(retry=3, streams=3, ring=3, extra=[(r'InnerRecv.*::recv', 2), (r'BusyWait.*::wait', 2), (r'ReadCursor::add_stream', 3), (r'ReadCursor::remove_reader', 3), (r'Vec.*clone|to_vec|retain|extend|spec_', 5)])
 for n, w, t in (("c09_mp_a1", "mpmc N=2, skeleton 1 (send send clone recv0 recv1 send drop1 recv0 send recv0)", "quick"),
                 ("c09_bc_a1", "broadcast N=1, skeleton 1", "thorough"),
                 ("c09_bc_a2", "broadcast N=2, skeleton 2 (send send add_stream recv0 recv1 send unsubscribe send recv0 send)", "quick"),
